@@ -39,7 +39,7 @@ def generate(rng, tier):
     case = gen.gen_case(rng, {
         "p_info": 0.0, "p_demux": 0.12, "p_minimal_report": 0.0, "json": False, "p_stdout": 0.0,
         "in_containers": ("",), "out_containers": ("",), "fastq": True, "p_interleaved_out": 0.0,
-        "n_records": (0, 30), "p_interleaved_redirect": 0.0, "p_huge": 0.02, "p_giant": 0.008, "p_quiet": 0.04, "p_debug": 0.03,
+        "n_records": (0, 30), "p_interleaved_redirect": 0.0, "p_huge": 0.02, "p_giant": 0.006, "p_quiet": 0.04, "p_debug": 0.03,
     })
     case["input"]["layout"] = "two" if case["paired"] else "single"
     case["input"]["containers"] = [""] * (2 if case["paired"] else 1)
@@ -147,6 +147,17 @@ def make_variant(base, rng, reference=False):
         if all(fmt.strip_container(g[1]).endswith((".fastq", ".fq", ".fasta", ".fa")) for g in outs if g[0] in RECORD_OUT_FLAGS):
             outs.append(["--fasta"])
             dims["fasta_with_named_output"] = True
+    if (not reference) and paired and not demux and not out_interleaved and cores == 1 and rng.random() < 0.08:
+        # only one mate is wanted: the other file of the main output is /dev/null (one core only: with several,
+        # a pair of names that do not ask for one format is written in the input format - known finding KF-C06-2)
+        side_ = rng.choice(["-o", "-p"])
+        other_ = next((g for g in outs if g[0] in ("-o", "-p") and g[0] != side_), None)
+        if other_ is not None and fmt.container_of(other_[1]) in ("", ".zst"):
+            # (.gz/.bz2/.xz writers do not expose their name: the same known finding at one core)
+            for g in outs:
+                if g[0] == side_:
+                    g[1] = "/dev/null"
+            dims["devnull_mate"] = side_
     if layout == "interleaved" or out_interleaved:
         outs.append(["--interleaved"])
     v["outs"] = outs
@@ -169,7 +180,9 @@ def read_all(case, res, name, viols):
     out = {}
     for d in C.destinations(case):
         try:
-            f, r1, r2 = C.read_dest(res, d)
+            f, r1, r2, observed = C.read_dest_ex(res, d)
+            if observed == "none":
+                continue
         except KeyError as e:
             viols.append(C.V("output-missing", f"{name}: output file {e} was not created"))
             continue
@@ -185,6 +198,8 @@ def read_all(case, res, name, viols):
             key = tuple(key)
         out[(d["role"], key)] = (f, r1, r2, d)
         for p in d["paths"]:
+            if p == C.DEVNULL:
+                continue
             data = C.file_bytes(res, p)
             plain = fmt.decompress(p if p != C.STDOUT else "stdout", data)
             got = fmt.sniff(plain)
@@ -234,7 +249,13 @@ def evaluate(case, ctx):
                 viols.append(C.V("destination-missing", f"{name}: destination {key} missing; dims {v['dims']}"))
                 continue
             f1, b1, b2, d1 = vout[key]
-            total += len(b1)
+            total += len(b1 if b1 is not None else b2)
+            if C.DEVNULL in d1["paths"]:
+                # the mate that went to /dev/null cannot be compared
+                if b1 is None:
+                    a1 = None
+                if b2 is None:
+                    a2 = None
             lvl = 3 if (f0 == "fastq" and f1 == "fastq") else 2
             for side, (x, y) in enumerate(((a1, b1), (a2, b2))):
                 if x is None or y is None:
